@@ -259,12 +259,19 @@ func vAllNodes(n Node, into *Nodes) {
 // VerifC02_NormalForm: near-grammar lines (runs of blanks and tabs after the level, after the xref and
 // before the value; hostile bytes inside the xref): whatever the decoder accepts must be a tree whose
 // pointers are free of '@' and whose encoding is a fixpoint (it decodes to the same tree and encodes
-// to the same text again). cs%4: decoder options, cs/4%4: where the symbolic separator sits.
+// to the same text again). cs%4: decoder options, cs/4%5: where the symbolic separator sits (4: Unicode white space around a value).
 func VerifC02_NormalForm(cs int) {
 	multiLine, invalidIndents := cs%2 == 1, cs/2%2 == 1
 	sep := VsBytesIn("sep", VsChoose("seplen", 3)+1, " \t")
 	var text string
-	switch cs / 4 % 4 {
+	unicodePad := ""
+	switch cs / 4 % 5 {
+	case 4:
+		// white space outside ASCII around the value (NEL, no-break space, ogham space, en quad, line
+		// separator, narrow no-break space, ideographic space), on either side, mixed with blanks
+		pads := []string{"", "\u0085", "\u00a0", "\u1680", "\u2000", "\u2028", "\u202f", "\u3000", " \u3000", "\u3000 "}
+		unicodePad = "padded"
+		text = "0 HEAD\n0 @I1@ INDI\n1 NAME " + pads[VsChoose("lead", len(pads))] + "Joe /Bloggs/" + pads[VsChoose("trail", len(pads))] + "\n1 SEX M\n0 TRLR\n"
 	case 0:
 		text = "0 HEAD\n0 @I1@" + sep + "INDI\n1 NAME Joe /Bloggs/\n0 TRLR\n"
 	case 1:
@@ -295,6 +302,15 @@ func VerifC02_NormalForm(cs int) {
 		}
 	}
 	VsAssert("accepted-pointers-hold-no-at-sign", clean)
+	if unicodePad != "" {
+		got := ""
+		for _, n := range all {
+			if n.Tag().Is(TagName) {
+				got = n.Value()
+			}
+		}
+		VsAssert("value-is-trimmed-of-every-white-space", got == "Joe /Bloggs/")
+	}
 	norm := o.doc.String()
 	o2 := vDecode(norm, multiLine, invalidIndents)
 	VsAssert("near-grammar-normal-form-is-accepted", !o2.panicked && o2.err == nil && o2.doc != nil)
